@@ -4,6 +4,8 @@
 # pass with it.  On success stores /verif/seeded/<id>/<name>/{patch.diff,demo_test.go,meta.json,confirm.log}
 set -u
 WT=$1; OUT=$2; PKG=$3; ID=$4; NAME=$5
+if [ "$PKG" = "-" ]; then PKG=$(head -1 "$OUT/demo_test.go" | sed -n 's|^// *dir: *\([A-Za-z0-9_/]*\).*|\1|p'); fi
+[ -n "$PKG" ] || { echo "no pkg dir"; exit 2; }
 export GOFLAGS=-mod=mod GOPROXY=off GOSUMDB=off GOTOOLCHAIN=local
 cd "$WT" || exit 2
 LOG=$(mktemp)
